@@ -267,6 +267,9 @@ func TestC02(t *testing.T) {
 	learnedSessions(t, rep, env, &idx, &evals, &nontrivial)
 	runRoundTripSched(t, rep, env)
 	rep.Add(evals, nontrivial, 0, 0)
+	// near-wrap tiers (shared with the C15 check, see wrap_util_test.go).
+	runEpochTier(t, rep, env)
+	runDuplexTier(t, rep, env)
 	if err := rep.Finish(env); err != nil {
 		t.Fatal(err)
 	}
